@@ -91,6 +91,9 @@ fn loop_case(rng: &mut Rng, ctx: &mut Ctx, idx: u64) {
     // configured to take it; most of those go through a clone of the configured client
     let big = !crate::ctx::small() && rng.chance(1, 700);
     let mut big_resp = false;
+    // ... or the limits stay at their 4 MiB default and the message travels compressed: what counts
+    // is its length on the wire
+    let big_compressed = big && rng.bool();
     if big {
         max_piece = 1 << 20;
         let n = 4 * 1024 * 1024 + rng.urange(1, 3000);
@@ -123,8 +126,11 @@ fn loop_case(rng: &mut Rng, ctx: &mut Ctx, idx: u64) {
     let handler = Handler::new();
     handler.set_script(&spec.id, script.clone());
     // compression negotiated in either direction must be invisible at the API
-    let c_send = if rng.chance(1, 3) { Some(*rng.pick(crate::refc::Enc::compressed())) } else { None };
-    let s_send = if rng.chance(1, 3) { Some(*rng.pick(crate::refc::Enc::compressed())) } else { None };
+    let c_send = if rng.chance(1, 3) || big_compressed { Some(*rng.pick(crate::refc::Enc::compressed())) } else { None };
+    let s_send = if rng.chance(1, 3) || big_compressed { Some(*rng.pick(crate::refc::Enc::compressed())) } else { None };
+    if big_compressed {
+        ctx.count("cfg.big_message_compressed_under_default_limit");
+    }
     let mut server = VerifServer::new(handler.clone());
     for e in crate::refc::Enc::compressed() {
         server = server.accept_compressed(e.tonic().unwrap());
@@ -133,7 +139,7 @@ fn loop_case(rng: &mut Rng, ctx: &mut Ctx, idx: u64) {
         server = server.send_compressed(e.tonic().unwrap());
         ctx.count("cfg.server_compresses");
     }
-    if big {
+    if big && !big_compressed {
         server = server.max_decoding_message_size(6 * 1024 * 1024);
     }
     let mut lb = Loopback::new(server, rng.u64(), max_piece);
@@ -152,7 +158,9 @@ fn loop_case(rng: &mut Rng, ctx: &mut Ctx, idx: u64) {
         ctx.count("cfg.empty_message_under_compression");
     }
     if big {
-        client = client.max_decoding_message_size(6 * 1024 * 1024);
+        if !big_compressed {
+            client = client.max_decoding_message_size(6 * 1024 * 1024);
+        }
         if rng.chance(2, 3) {
             client = client.clone();
             ctx.count("cfg.cloned_client");
